@@ -87,7 +87,7 @@ QUICK_UNCOVERED = ["V-p3-ext"]     # needs an AddExt mutant (thorough only)
 SMALL_BASES = ["p2", "p3", "ed", "p2p2", "p3p2", "p2p3", "edp2", "p3p3", "p2pub", "p3pub"]
 RICH_BASES = ["R2", "R3", "RE"]
 OPT_BASES = ["O2", "O3", "OE"]
-SYN_BASES = ["U3", "U3x"]      # synthetic oneof naming; U3x is outside protoc-certain (C27 only, flagged per case)
+SYN_BASES = ["U3", "U3x", "PX"]      # synthetic oneof naming (U3x is outside protoc-certain: C27 only, flagged per case); PX: package q.zab refers to package za
 
 
 def runs(tier, pid):
